@@ -64,7 +64,7 @@ func R12() Rule {
 		for _, f := range keysOf(r) {
 			c.Check(w[f], "R12", "a/validated-field-is-parsed/"+f, validate.Pos(), "parseConds sets "+f, "validateConds tests Conditions."+f+" but parseConds never sets it: the precondition can never take effect")
 		}
-		if len(w) < 5 {
+		if len(w) < 4 {
 			c.Unknown("R12", "floor/fields", token.NoPos, "only %d Conditions fields handled by parseConds", len(w))
 		}
 		// (b) failure kind → status code
@@ -127,7 +127,7 @@ func R12() Rule {
 				c.Check(code == want, "R12", construct, ret.Pos(), fmt.Sprintf("fails with %d", want), fmt.Sprintf("a failing %v precondition is answered with %d, expected %d (412 for match-kind and existence conditions, 304 for not-match ones)", keysOf(fields), code, want))
 			}
 		}
-		if nRet < 6 {
+		if nRet < 3 {
 			c.Unknown("R12", "floor/failures", token.NoPos, "only %d coded failure returns in validateConds", nRet)
 		}
 		// status code round trip
@@ -172,7 +172,7 @@ func R12() Rule {
 					"the conditions evaluated here do not (on every path) derive from the request: "+why+" — preconditions of this operation are ignored")
 			}
 		}
-		if n < 5 {
+		if n < 3 {
 			c.Unknown("R12", "floor/validate-sites", token.NoPos, "only %d validateConds call sites found", n)
 		}
 		// compose checks each source it reads against that source's conditions
